@@ -1,4 +1,3 @@
-use quote::quote;
 use syn::{punctuated::Punctuated, Data, DeriveInput, Field, Fields, Index, Meta, Type};
 
 use super::models::{FieldAttribute, FieldAttributeBuilder, TypeAttributeBuilder};
